@@ -90,6 +90,11 @@ let run_hist cfgtok evtok =
       parts @ ["rec=" ^ (if recs = [] then "-" else String.concat "/" (Stdlib.List.map (show_labels "F") recs))]
     else parts in
   let parts =
+    if c.cf_record_ts then
+      let recs = Stdlib.List.rev st.g_trec in
+      parts @ ["trec=" ^ (if recs = [] then "-" else String.concat "/" (Stdlib.List.map (show_labels "") recs))]
+    else parts in
+  let parts =
     if c.cf_hook then
       let hs = Stdlib.List.rev st.g_hook in
       let show (ms, st) =
